@@ -36,6 +36,7 @@ ArenaBase ==
   @@ (<<"A","ext">> :> D7) @@ (<<"A","ext","x">> :> FileNode(640, 3, 3)) @@ (<<"A","ext","s">> :> D7) @@ (<<"A","ext","s","y">> :> FileNode(644, 1, 6))
   @@ (<<"A","ext2">> :> D7) @@ (<<"A","ext2","y">> :> FileNode(644, 1, 4))
   @@ (<<"A","ef">> :> FileNode(600, 4, 5))
+  @@ (<<"A","cw","ef">> :> FileNode(644, 1, 7))     \* what ../cw/rl/../ef names lexically (physically it is A/ef: rl -> ../src)
   @@ (<<"A","fifo">> :> FifoNode(644, 1))
   @@ (<<"A","la">> :> LinkNode(<<"lb">>)) @@ (<<"A","lb">> :> LinkNode(<<"la">>))
   @@ (<<"A","lc">> :> LinkNode(<<"","A","ld">>)) @@ (<<"A","ld">> :> LinkNode(<<"","A","lc">>))      \* a cycle with absolute targets
@@ -47,12 +48,12 @@ Opt(x) == IF x = <<>> THEN <<>> ELSE x
 LinkSlot(p, tg) == IF tg = <<"-">> THEN <<>> ELSE (p :> LinkNode(tg))
 
 \* ---- safety universe: link shapes x special files x odd modes ----
-TL == { <<"..">>, <<"..","cw","ext","zz">>, <<"..","ext">>, <<"..","ext","s">>, <<"..","ext","x">>, <<"..","srcx">>, <<"..","srcx","f">>, <<"s">>, <<"f">>, <<"nowhere">>,
+TL == { <<"..","cw","rl","..","ef">>, <<"..">>, <<"..","cw","ext","zz">>, <<"..","ext">>, <<"..","ext","s">>, <<"..","ext","x">>, <<"..","srcx">>, <<"..","srcx","f">>, <<"s">>, <<"f">>, <<"nowhere">>,
         <<"..","fifo">>, <<"..","la">>, <<"","A","src","f">>, <<"","A","ef">>, <<"..","..","A","ext">>, <<"s","..","..","ef">>, <<"..","ef">> }
 TK == { <<"..","ext2">>, <<".">>, <<"..","src","f">>, <<"x">>, <<"..","ef">>, <<"","A","ext","x">> }
 TK2 == { <<"..","..","src","f">>, <<"y">>, <<"..","..","ext2">> }      \* a link at ext/s/k: one level deeper than where it lands in the archive
 TM == { <<"..","f">>, <<"..","..">>, <<"..","..","src","f">>, <<"..","..","ext">>, <<"..","..","srcx","f">>, <<"..">>, <<"g">> }
-TLq == { <<"..">>, <<"..","cw","ext","zz">>, <<"..","ext">>, <<"..","ext","s">>, <<"..","ext","x">>, <<"..","srcx","f">>, <<"s">>, <<"nowhere">>, <<"..","fifo">>, <<"..","la">>, <<"","A","src","f">>, <<"","A","ef">> }
+TLq == { <<"..","cw","rl","..","ef">>, <<"..">>, <<"..","cw","ext","zz">>, <<"..","ext">>, <<"..","ext","s">>, <<"..","ext","x">>, <<"..","srcx","f">>, <<"s">>, <<"nowhere">>, <<"..","fifo">>, <<"..","la">>, <<"","A","src","f">>, <<"","A","ef">> }
 TKq == { <<"..","ext2">>, <<".">>, <<"x">>, <<"","A","ext","x">> }
 TMq == { <<"..","f">>, <<"..","..">>, <<"..","..","src","f">>, <<"..","..","ext">>, <<"..">> }
 
